@@ -114,6 +114,7 @@ fn call(entry: &str, w: &[u32]) -> Option<(u16, Option<[u32; 5]>)> {
             _ => return None,
         },
         "hand_rank_value" | "hand_rank_value_validated" | "hand_rank.value" => (h.rank_entry(entry)?, None),
+        "evaluate.five_cards" if w.len() == 5 => (ckc_rs::evaluate::five_cards([w[0], w[1], w[2], w[3], w[4]]), None),
         _ => return None,
     })
 }
@@ -194,7 +195,10 @@ fn sub_deck(ranks: &[u8], suits: &[u8]) -> Vec<Card> {
 /// Runs the pass for hand size `n`; `witness` selects C03's conditions instead of C02/C01's value oracle.
 pub fn space(rep: &mut Report, n: usize, witness: bool, thorough: bool) {
     let mode = if witness { "witness" } else { "value" };
-    let entries: Vec<&str> = if witness { vec!["hand_rank_value_and_hand"] } else { ENTRIES.to_vec() };
+    let mut entries: Vec<&str> = if witness { vec!["hand_rank_value_and_hand"] } else { ENTRIES.to_vec() };
+    if !witness && n == 5 {
+        entries.push("evaluate.five_cards");
+    }
     let mut decks = vec![sub_deck(&[12, 11, 10, 9, 8, 7, 6], &[3, 2])];
     if thorough {
         decks.push(sub_deck(&[12, 3, 2, 1, 0, 11, 7], &[3, 2, 0]));
@@ -254,5 +258,164 @@ pub fn space(rep: &mut Report, n: usize, witness: bool, thorough: bool) {
             t0,
             "X then Y and Y then X, single-threaded; neighbours = one-slot suit change, two-slot suit exchange, slot swaps, rotations, suit shifts, one-slot rank step",
         );
+    }
+}
+
+// ---------------------------------------------------------------------------------------------------------------------
+// Sharded pair histories: ALL ordered pairs inside alphabets of hands that differ "in suits only" or "in ranks only".
+// A cheap digest of a hand (sum / xor / or of the words, the rank pattern, the prime product, a truncated key ...)
+// confuses exactly such hands. Each shard is its own single-threaded process (see props::spawn_shards).
+
+fn suitings(ranks: &[u8], suits: &[u8]) -> Vec<Vec<u32>> {
+    // every assignment of `suits` to the given ranks that yields distinct cards
+    let n = ranks.len();
+    let k = suits.len();
+    let mut out = Vec::new();
+    let total = (k as u64).pow(n as u32);
+    for t in 0..total {
+        let mut x = t;
+        let mut cs: Vec<Card> = Vec::with_capacity(n);
+        for r in ranks {
+            cs.push(Card::new(*r, suits[(x % k as u64) as usize]));
+            x /= k as u64;
+        }
+        if (0..n).all(|i| (0..i).all(|j| cs[i] != cs[j])) {
+            out.push(cs.iter().map(|c| c.word()).collect());
+        }
+    }
+    out
+}
+
+fn rank_sets(n: usize, suit_vec: &[u8]) -> Vec<Vec<u32>> {
+    combos(13, n).into_iter().map(|rs| rs.iter().rev().enumerate().map(|(i, r)| Card::new(*r as u8, suit_vec[i]).word()).collect()).collect()
+}
+
+/// one representative five-card hand per strength class (7,462 hands)
+fn class_representatives() -> Vec<Vec<u32>> {
+    let o = oracle();
+    let mut reps: Vec<Option<Vec<u32>>> = vec![None; 7463];
+    let mut ranks = [0u8; 5];
+    for a in 0..13u8 {
+        for b in a..13 {
+            for c in b..13 {
+                for d in c..13 {
+                    for e in d..13 {
+                        if a == e {
+                            continue;
+                        }
+                        ranks.copy_from_slice(&[a, b, c, d, e]);
+                        // non-flush suiting: rotate suits so that equal ranks get different suits
+                        let cs: Vec<Card> = (0..5).map(|i| Card::new(ranks[i], (i % 4) as u8)).collect();
+                        let v = o.best_by_rules(&cs) as usize;
+                        if reps[v].is_none() {
+                            reps[v] = Some(cs.iter().map(|c| c.word()).collect());
+                        }
+                        if a < b && b < c && c < d && d < e {
+                            let fs: Vec<Card> = (0..5).map(|i| Card::new(ranks[i], 3)).collect();
+                            let fv = o.best_by_rules(&fs) as usize;
+                            if reps[fv].is_none() {
+                                reps[fv] = Some(fs.iter().map(|c| c.word()).collect());
+                            }
+                        }
+                    }
+                }
+            }
+        }
+    }
+    reps.into_iter().flatten().collect()
+}
+
+pub fn pair_alphabets(n: usize, thorough: bool) -> Vec<(String, Vec<Vec<u32>>)> {
+    let mut v = Vec::new();
+    match n {
+        5 => {
+            v.push(("one representative hand per strength class (7,462)".to_string(), class_representatives()));
+            for ranks in [vec![11u8, 10, 9, 7, 5], vec![12, 3, 2, 1, 0], vec![12, 11, 10, 9, 8]] {
+                v.push((format!("all suitings of the ranks {:?}", ranks), suitings(&ranks, &[0, 1, 2, 3])));
+            }
+            for ranks in [vec![12u8, 12, 11, 10, 9], vec![12, 12, 11, 11, 10], vec![12, 12, 12, 11, 10], vec![12, 12, 12, 11, 11], vec![12, 12, 12, 12, 11]] {
+                v.push((format!("all suitings of the ranks {:?}", ranks), suitings(&ranks, &[0, 1, 2, 3])));
+            }
+        }
+        6 => {
+            v.push(("all 1,716 rank sets under the suit vector SSSSHD".to_string(), rank_sets(6, &[3, 3, 3, 3, 2, 1])));
+            v.push(("all suitings over three suits of the ranks A K Q J 9 7".to_string(), suitings(&[12, 11, 10, 9, 7, 5], &[3, 2, 1])));
+            if thorough {
+                v.push(("all suitings over four suits of the ranks A K Q J 9 7".to_string(), suitings(&[12, 11, 10, 9, 7, 5], &[0, 1, 2, 3])));
+            }
+        }
+        _ => {
+            v.push(("all 1,716 rank sets under the suit vector SSSSHHD".to_string(), rank_sets(7, &[3, 3, 3, 3, 2, 2, 1])));
+            v.push((
+                if thorough { "all suitings over three suits of the ranks A K Q J 9 7 3".to_string() } else { "all suitings over two suits of the ranks A K Q J 9 7 3, and over three suits of its first five".to_string() },
+                if thorough {
+                    suitings(&[12, 11, 10, 9, 7, 5, 1], &[3, 2, 1])
+                } else {
+                    let mut s = suitings(&[12, 11, 10, 9, 7, 5, 1], &[3, 2]);
+                    for five in suitings(&[12, 11, 10, 9, 7], &[3, 2, 1]) {
+                        let mut h = five.clone();
+                        h.push(Card::new(5, 0).word());
+                        h.push(Card::new(1, 0).word());
+                        s.push(h);
+                    }
+                    s
+                },
+            ));
+        }
+    }
+    v
+}
+
+/// Shard k of n of the pair histories for hand size `nc`.
+pub fn sharded_pairs(rep: &mut Report, nc: usize, witness: bool, thorough: bool, k: usize, n: usize) {
+    let mode = if witness { "witness" } else { "value" };
+    let mut entries: Vec<&str> = if witness { vec!["hand_rank_value_and_hand"] } else { vec!["hand_rank_value", "hand_rank_value_validated", "hand_rank_value_and_hand"] };
+    if !witness && nc == 5 {
+        entries.push("evaluate.five_cards");
+    }
+    for (name, hands) in pair_alphabets(nc, thorough) {
+        let t0 = Instant::now();
+        let kind = monitor::kind_id(&format!("history.{}", mode));
+        let accs = par_parts(1, |_| {
+            let mut acc = Acc::new(1);
+            // expected values once
+            let exp: Vec<u16> = hands.iter().map(|h| oracle().best_by_rules(&h.iter().map(|w| word_to_card(*w).unwrap()).collect::<Vec<_>>())).collect();
+            for e in &entries {
+                for (xi, x) in hands.iter().enumerate() {
+                    if xi % n != k {
+                        continue;
+                    }
+                    monitor::beat(kind, &[xi as u64]);
+                    for (yi, y) in hands.iter().enumerate() {
+                        acc.cases += 1;
+                        acc.calls += 2;
+                        acc.nontrivial += (exp[xi] != exp[yi]) as u64;
+                        let r = guard(|| (call(e, x), call(e, y)));
+                        let ok = match &r {
+                            Ok((Some(rx), Some(ry))) => {
+                                if witness {
+                                    answer_ok(x, rx, false, true).is_ok() && answer_ok(y, ry, false, true).is_ok()
+                                } else {
+                                    rx.0 == exp[xi] && ry.0 == exp[yi]
+                                }
+                            }
+                            _ => false,
+                        };
+                        if !ok {
+                            let mut words: Vec<u32> = x.clone();
+                            words.extend(y.iter());
+                            let case = Case::w32(&format!("history.{}.{}", mode, e), &words);
+                            match super::confirm(judge, case.clone()) {
+                                Some(v) => acc.violate(v),
+                                None => acc.violate(Violation { class: format!("history.{}.{}:not-reproducible", mode, e), case, expected: "the same answer whenever the same two calls are made".into(), observed: "wrong once in sequence, right when the sequence was repeated".into(), profile: profile_name().into(), trace: vec![] }),
+                            }
+                        }
+                    }
+                }
+            }
+            acc
+        });
+        let acc = Acc::merged(accs);
+        rep.add_space(&format!("pair histories ({} cards): every ordered pair of {} - {} hands x {} entry point(s), sharded over single-threaded processes", nc, name, hands.len(), entries.len()), &acc, t0, "X ranked, then Y ranked and judged; hands that differ in suits only / in ranks only are what a lossy digest confuses");
     }
 }
